@@ -478,6 +478,16 @@ def rec_dispatch(F):
                 r.ob(ok, {"fn": fn["path"], "rec_emission_line": c["sp"][0], "guarded_by_explicitness": ok})
                 if not ok:
                     r.violate("%s | unconditional rec" % fn["path"], F.loc(fn, c), "a type group is emitted with `.rec(..)` without checking that it is an explicit recursion group: plain types come back as one-element rec groups")
+    # the module's own types reach the type section only as subtypes built by encode_type (`.subtype(..)` / `.rec(..)`): the
+    # shorthand builders (`.function(..)`, `.array(..)`, `.struct_(..)`) cannot express is_final / shared / a supertype
+    mi = F.find_fns(name="encode_internal", self_adt="Module")
+    for fn in mi:
+        short = [c for c in walk(fn["body"]) if c.get("k") == "MethodCall" and "CoreTypeEncoder" in (c.get("recv_ty") or "")
+                 and c["method"] in ("function", "func_type", "array", "struct_", "cont")]
+        r.ob(not short, {"fn": fn["path"], "shorthand type builders": [c["method"] for c in short]})
+        for c in short:
+            r.violate("%s | shorthand .%s" % (fn["path"], c["method"]), F.loc(fn, c),
+                      "a module type is written with the shorthand builder `.%s(..)` instead of the subtype built by encode_type: is_final, shared and the supertype of such a type are not encoded" % c["method"])
     r.count("rec_emissions", n)
     if n < 3:
         raise CheckError("expected ≥3 `.rec(..)` emission sites (module, component core types ×2, module-type declarations), found %d" % n)
